@@ -48,6 +48,8 @@ var c03Pre = []string{
 
 // branches; %T is replaced by the byte address of the target label
 var c03Branches = []string{
+	// resolved late: the operand comes from a load that misses (the outer branch of a nest)
+	"lw t5, 448(zero)\nbnez t5, target",
 	"beq t0, t0, target",
 	"bne t0, t1, target",
 	"blt t0, t1, target",
@@ -74,6 +76,9 @@ var c03Shadow = []string{
 	"div t0, t1, zero",
 	"bne t0, t1, target",
 	"ret",
+	"beq t0, t0, far", // a nested branch to a higher address than the outer target
+	"addi t1, t1, 64", // producer of an address register
+	"lw t2, 0(t1)",    // load through that register (forwarded base)
 }
 
 type c03Case struct {
@@ -89,7 +94,18 @@ func c03Build(pre, br string, shadow []string) string {
 		tgt := 4 * (countLines(pre) + countLines(b) + len(shadow))
 		b = strings.ReplaceAll(b, "%T", fmt.Sprint(tgt))
 	}
-	return lines(pre, b, strings.Join(shadow, "\n"), "target:", post)
+	return lines(pre, b, strings.Join(shadow, "\n"), "target:", post, "far:", "addi t6, t6, 1")
+}
+
+// c03BuildReentry: the second shadow instruction is also reachable on the
+// executed path (the code after the branch target jumps back to it).
+func c03BuildReentry(pre, br string, s0, s1 string) string {
+	b := br
+	if strings.Contains(b, "%T") {
+		tgt := 4 * (countLines(pre) + countLines(b) + 3)
+		b = strings.ReplaceAll(b, "%T", fmt.Sprint(tgt))
+	}
+	return lines(pre, b, s0, "re:", s1, "j far", "target:", post, "j re", "far:", "addi t6, t6, 1")
 }
 
 // c03Compare is the verdict: the run with the real shadow must be
@@ -125,20 +141,83 @@ func c03Run(c *RunCtx) {
 		maxShadow = 3
 	}
 	cfgs := cfgsWhere(pipelined)
-	inits := initsByID("pos", "ra")
+	stdInits, reInits := initsByID("pos", "ra"), initsByID("al")
+	if c.Thorough() {
+		stdInits, reInits = initsByID("pos", "ra", "al"), initsByID("al", "pos")
+	}
 	item := -1
 	progs := 0
+	type key struct{ twin, cfg, init string }
 	for _, pre := range c03Pre {
 		for _, br := range c03Branches {
+			base := map[key]*pxOutcome{}
+			refs := map[string]*refResult{}
+			// one (program, twin, wrong-path pcs) case
+			check := func(text, twin string, offPath []int32, inits []*pxInit) {
+				progs++
+				counted := false
+				for _, in := range inits {
+					ref := refRun(text, in)
+					// C03 is about instructions the executed path skips: the reference must be
+					// well formed and must not execute any of the wrong-path instructions
+					onPath := false
+					for _, pc := range ref.PCs {
+						for _, o := range offPath {
+							if pc == o {
+								onPath = true
+							}
+						}
+					}
+					if !ref.WellFormed || ref.Err != "" || onPath {
+						c.Sum.Outcomes["skipped-shadow-on-executed-path"]++
+						continue
+					}
+					if !counted {
+						counted = true
+						c.Sum.Nontrivial++
+					}
+					bref := refs[twin+"|"+in.ID]
+					if bref == nil {
+						r := refRun(twin, in)
+						bref = &r
+						refs[twin+"|"+in.ID] = bref
+					}
+					for _, cfg := range cfgs {
+						k := key{twin, cfg.Name, in.ID}
+						b := base[k]
+						if b == nil {
+							o := pxExec(cfg, twin, in, bref, false, nil, nil)
+							b = &o
+							base[k] = b
+							c.Sum.Evaluations++
+						}
+						out := pxExec(cfg, text, in, &ref, false, nil, nil)
+						c.Sum.Evaluations++
+						c.Sum.States++
+						c.Sum.Validated++
+						c.Sum.Transitions += int64(ref.Steps)
+						class, detail := c03Compare(b, &out)
+						c.Sum.Outcomes[class]++
+						if class != "ok" {
+							c.Fail(cfg.Fam+"/"+class, class, c03Case{Cfg: cfg.Name, Init: in.ID, Prog: text, NopRef: twin}, detail)
+						}
+					}
+				}
+				if progs%211 == 1 {
+					c.Sample(map[string]any{"program": strings.Split(strings.TrimSpace(text), "\n"), "nop_shadow_twin": strings.Split(strings.TrimSpace(twin), "\n")})
+				}
+			}
+			first := int32(4 * (countLines(pre) + countLines(br)))
 			for n := 1; n <= maxShadow; n++ {
 				nops := make([]string, n)
 				for i := range nops {
 					nops[i] = "nop"
 				}
 				baseText := c03Build(pre, br, nops)
-				type key struct{ cfg, init string }
-				base := map[key]*pxOutcome{}
-				refs := map[string]*refResult{}
+				var off []int32
+				for i := 0; i < n; i++ {
+					off = append(off, first+int32(4*i))
+				}
 				seqs(len(c03Shadow), n, func(idx []int) {
 					item++
 					if !c.Mine(item) {
@@ -148,64 +227,18 @@ func c03Run(c *RunCtx) {
 					for i, k := range idx {
 						sh[i] = c03Shadow[k]
 					}
-					text := c03Build(pre, br, sh)
-					progs++
-					counted := false
-					for _, in := range inits {
-						ref := refRun(text, in)
-						// C03 is about shadows the executed path skips: the reference must
-						// be well formed and must not execute any shadow instruction
-						onPath := false
-						first := int32(4 * (countLines(pre) + countLines(br)))
-						for _, pc := range ref.PCs {
-							if pc >= first && pc < first+int32(4*n) {
-								onPath = true
-							}
-						}
-						if !ref.WellFormed || ref.Err != "" || onPath {
-							c.Sum.Outcomes["skipped-shadow-on-executed-path"]++
-							continue
-						}
-						if !counted {
-							counted = true
-							c.Sum.Nontrivial++
-						}
-						bref := refs[in.ID]
-						if bref == nil {
-							r := refRun(baseText, in)
-							bref = &r
-							refs[in.ID] = bref
-						}
-						for _, cfg := range cfgs {
-							k := key{cfg.Name, in.ID}
-							b := base[k]
-							if b == nil {
-								o := pxExec(cfg, baseText, in, bref, false, nil, nil)
-								b = &o
-								base[k] = b
-								c.Sum.Evaluations++
-							}
-							out := pxExec(cfg, text, in, &ref, false, nil, nil)
-							c.Sum.Evaluations++
-							c.Sum.States++
-							c.Sum.Validated++
-							c.Sum.Transitions += int64(ref.Steps)
-							class, detail := c03Compare(b, &out)
-							c.Sum.Outcomes[class]++
-							if class != "ok" {
-								c.Fail(cfg.Fam+"/"+class, class, c03Case{Cfg: cfg.Name, Init: in.ID, Prog: text, NopRef: baseText}, detail)
-							}
-						}
-					}
-					if progs%211 == 1 {
-						c.Sample(map[string]any{"program": strings.Split(strings.TrimSpace(text), "\n"), "nop_shadow_twin": strings.Split(strings.TrimSpace(baseText), "\n")})
+					check(c03Build(pre, br, sh), baseText, off, stdInits)
+					if n == 2 && br != "ret" {
+						// re-entry: the second shadow instruction is also on the executed path;
+						// only the first one is wrong-path, only that one becomes a nop in the twin
+						check(c03BuildReentry(pre, br, sh[0], sh[1]), c03BuildReentry(pre, br, "nop", sh[1]), []int32{first}, reInits)
 					}
 				})
 			}
 		}
 	}
 	c.AddExtra("programs", float64(progs))
-	c.Sum.Rule = "PX: pre x BR x shadow x post: pre in {none, warm line A (older load miss), warm line B, older store miss}, BR in {beq/bne/blt/bge/bltu/bnez (2 initial states decide taken / not taken), j, jal, jalr, ret}, shadow = every sequence of length 1..2 (quick) / 1..3 (thorough) over 13 templates (register writes, stores to cached/uncached lines, loads incl. out-of-bounds, jal/jalr with link, div by zero, a second branch, ret), MVP-4..8 x parallelism 1..4 (30 configurations). Only cases in which the sequential reference skips the whole shadow are kept. Oracle (differential): outcome class, registers x1..x31 and the whole memory equal those of the same program with a nop shadow on the same configuration, i.e. the wrong-path instructions leave no trace and do not make the run fail; non-trivial = distinct kept programs"
+	c.Sum.Rule = "PX: pre x BR x shadow x post: pre in {none, warm line A (older load miss), warm line B, older store miss}, BR in {a late-resolving bnez fed by a missing load, beq/bne/blt/bge/bltu/bnez (2 initial states, thorough 3, decide taken / not taken; the re-entry layout uses a state with aligned register values), j, jal, jalr, ret}, shadow = every sequence of length 1..2 (quick) / 1..3 (thorough) over 16 templates (register writes, stores to cached/uncached lines, loads incl. out-of-bounds and through a just-written base register, jal/jalr with link, div by zero, nested branches to the outer target and to a higher address, ret), plus for every length-2 shadow the re-entry layout in which the second shadow instruction is also reached on the executed path; MVP-4..8 x parallelism 1..4 (30 configurations). Only cases in which the sequential reference skips the wrong-path instructions are kept. Oracle (differential): outcome class, registers x1..x31 and the whole memory equal those of the same program with the wrong-path instructions replaced by nops on the same configuration; non-trivial = distinct kept programs"
 	c.Assume("defects that hit the nop-shadow twin in the same way (e.g. an older load lost by the flush itself) are C01's, not C03's")
 }
 
@@ -242,9 +275,10 @@ var c04Alpha = []string{
 	"lw t2, 4(zero)",
 	"sw t0, 136(zero)",
 	"sw t2, 140(zero)",
+	"add t3, t0, t0", // duplicated source register
 }
 
-var c04Core = []int{0, 1, 2, 3, 4, 7, 8, 10}
+var c04Core = []int{0, 1, 2, 3, 4, 7, 8, 10, 12}
 
 func c04Programs(tier string, emit func(p pxProg)) {
 	full, core := 3, 4
@@ -276,7 +310,7 @@ var c04Suite = &pxSuite{
 	Programs:   c04Programs,
 	Violates:   wrongResult,
 	Nontrivial: func(ref *refResult, p pxProg) bool { return ref.Deps > 1 },
-	Rule:       "PX: every sequence of length <= 3 (quick) / <= 4 (thorough) over the 12-template register-pressure alphabet (addi/add/mul/mv/sub over t0..t2 with rd=rs aliases, loads that miss then hit into t0/t1/t2, stores as late readers) and of length 4 / 5 over an 8-template core, x cache pre-state {cold, lines 0 and 64 warm}, on MVP-4..8 x parallelism 1..4; oracle = every register holds the value of its last writer in program order (sequential reference) and stores saw the program-order value; non-trivial = distinct programs with at least two register dependences within a distance of two instructions",
+	Rule:       "PX: every sequence of length <= 3 (quick) / <= 4 (thorough) over the 13-template register-pressure alphabet (addi/add/mul/mv/sub over t0..t3 with rd=rs aliases and duplicated sources, loads that miss then hit into t0/t1/t2, stores as late readers) and of length 4 / 5 over a 9-template core, x cache pre-state {cold, lines 0 and 64 warm}, on MVP-4..8 x parallelism 1..4; oracle = every register holds the value of its last writer in program order (sequential reference) and stores saw the program-order value; non-trivial = distinct programs with at least two register dependences within a distance of two instructions",
 }
 
 // ------------------------------------------------------------------ C05
@@ -298,6 +332,20 @@ func sweep(kind string, n, stride, base int, id int) string {
 	return fmt.Sprintf("li t3, %d\nli t4, %d\nsw%d:\n%s\naddi t4, t4, %d\naddi t3, t3, -1\nbnez t3, sw%d", n, base, id, op, stride, id)
 }
 
+func c05Sweeps(tier string) []string {
+	sweeps := []string{
+		sweep("R", 17, 64, 0, 1), sweep("W", 17, 64, 0, 1), sweep("W", 33, 64, 0, 1), sweep("W", 33, 128, 0, 1),
+		sweep("W", 17, 64, 0, 1) + "\n" + sweep("R", 17, 64, 0, 2),
+		// the same lines read twice: evicted lines are fetched again
+		sweep("R", 18, 64, 0, 1) + "\n" + sweep("R", 18, 64, 0, 2),
+	}
+	if tier == "thorough" {
+		sweeps = append(sweeps, sweep("R", 33, 128, 0, 1), sweep("W", 16, 64, 0, 1), sweep("W", 18, 64, 64, 1), sweep("W", 34, 128, 0, 1)+"\n"+sweep("R", 34, 128, 0, 2),
+			sweep("R", 34, 128, 0, 1)+"\n"+sweep("R", 34, 128, 0, 2))
+	}
+	return sweeps
+}
+
 var c05Small = []string{"", "lw t0, 0(zero)", "sw t1, 0(zero)", "sb t2, 70(zero)", "lw t1, 2048(zero)", "sw t0, 2112(zero)", "lb t2, 1(zero)", "sw t2, 4032(zero)"}
 
 func c05Programs(tier string, emit func(p pxProg)) {
@@ -314,16 +362,13 @@ func c05Programs(tier string, emit func(p pxProg)) {
 			emit(pxProg{Text: lines(strings.Join(b, "\n"), "sw t0, 128(zero)\nsw t1, 132(zero)\nsw t2, 136(zero)"), Tag: "mem"})
 		})
 	}
-	sweeps := []string{
-		sweep("R", 17, 64, 0, 1), sweep("W", 17, 64, 0, 1), sweep("W", 33, 64, 0, 1), sweep("R", 33, 128, 0, 1), sweep("W", 33, 128, 0, 1),
-		sweep("W", 17, 64, 0, 1) + "\n" + sweep("R", 17, 64, 0, 2),
+	small := c05Small
+	if tier != "thorough" {
+		small = c05Small[:6]
 	}
-	if tier == "thorough" {
-		sweeps = append(sweeps, sweep("W", 16, 64, 0, 1), sweep("W", 18, 64, 64, 1), sweep("W", 34, 128, 0, 1)+"\n"+sweep("R", 34, 128, 0, 2))
-	}
-	for _, sw := range sweeps {
-		for _, before := range c05Small {
-			for _, after := range c05Small {
+	for _, sw := range c05Sweeps(tier) {
+		for _, before := range small {
+			for _, after := range small {
 				emit(pxProg{Text: lines(before, sw, after, "sw t0, 5000(zero)\nsw t1, 5004(zero)\nsw t2, 5008(zero)\nsw t6, 5012(zero)"), Tag: "sweep"})
 			}
 		}
@@ -335,7 +380,7 @@ var c05Suite = &pxSuite{
 	Programs:   c05Programs,
 	Violates:   wrongResult,
 	Nontrivial: func(ref *refResult, p pxProg) bool { return ref.MemOps >= 5 },
-	Rule:       "PX: every sequence of length <= 3 (quick) / <= 4 (thorough) over the 18-template memory alphabet (lb/lh/lw/sb/sh/sw at line-relative offsets 0, 2, 4, 60, 62, 63 of lines 0, 64 and 1024, so that every first-touch offset and same-line / other-line mixes occur) with all loaded registers stored to result slots, plus sweep macros (17 or 33 distinct lines read or written by a counted loop with stride 64 / 128: more lines than L1 has ways, more than L3 has ways; write sweep followed by read sweep) x {one access before} x {one access after} from 8 templates; MVP-3..8 x parallelism 1..4 (31 configurations); oracle = flat-memory reference (every loaded value via result slots, whole final memory image); non-trivial = distinct programs with at least 5 memory accesses (3 are the result stores)",
+	Rule:       "PX: every sequence of length <= 3 (quick) / <= 4 (thorough) over the 18-template memory alphabet (lb/lh/lw/sb/sh/sw at line-relative offsets 0, 2, 4, 60, 62, 63 of lines 0, 64 and 1024, so that every first-touch offset and same-line / other-line mixes occur) with all loaded registers stored to result slots, plus sweep macros (17 or 33 distinct lines read or written by a counted loop with stride 64 / 128: more lines than L1 has ways, more than L3 has ways; write sweep followed by read sweep) x {one access before} x {one access after} from 6 (quick) / 8 templates; sweeps that read the same 18 / 34 lines twice (evicted lines fetched again); MVP-3..8 x parallelism 1..4 (31 configurations); oracle = flat-memory reference (every loaded value via result slots, whole final memory image); non-trivial = distinct programs with at least 5 memory accesses (3 are the result stores)",
 }
 
 // ------------------------------------------------------------------ C09
@@ -463,6 +508,25 @@ func c07Programs(tier string, emit func(p pxProg)) {
 		seqs(len(alphaGeneral), n, func(idx []int) {
 			emit(pxProg{Text: buildProg(alphaGeneral, idx), Tag: "general"})
 		})
+	}
+	// memory programs: every pair over the C05 and C10 alphabets, and the eviction sweeps
+	for _, alpha := range [][]string{c05Alpha, c10Alpha} {
+		n := 2
+		if tier == "thorough" {
+			n = 3
+		}
+		seqs(len(alpha), n, func(idx []int) {
+			var b []string
+			for _, k := range idx {
+				b = append(b, alpha[k])
+			}
+			emit(pxProg{Text: lines(strings.Join(b, "\n"), "end:", post), Tag: "memory"})
+		})
+	}
+	for _, sw := range c05Sweeps(tier) {
+		for _, after := range c05Small {
+			emit(pxProg{Text: lines(sw, after, "end:", post), Tag: "sweep"})
+		}
 	}
 	// programs that reach a defined error after a prefix
 	pl := 1
